@@ -439,7 +439,7 @@ impl<'a> Mon<'a> {
   }
 }
 
-fn build(cart_type: u8, rom_code: u8, ram_code: u8, rng: &mut Rng) -> (Box<MemoryAreas>, RefBus) {
+fn build(cart_type: u8, rom_code: u8, ram_code: u8, cgb_flag: u8, rng: &mut Rng) -> (Box<MemoryAreas>, RefBus) {
   let banks = support::rom_banks_for_code(rom_code);
   let mut image = support::make_image(cart_type, rom_code, ram_code);
   for b in 0..banks {
@@ -451,6 +451,12 @@ fn build(cart_type: u8, rom_code: u8, ram_code: u8, rng: &mut Rng) -> (Box<Memor
     image[b * 0x4000 + 1] = (b >> 8) as u8;
   }
   support::stamp_header(&mut image, cart_type, rom_code, ram_code);
+  if cgb_flag != 0 {
+    // header byte 0x143 is inside the checksummed range: fix the checksum up
+    let old = image[0x143];
+    image[0x143] = cgb_flag;
+    image[0x14d] = image[0x14d].wrapping_sub(cgb_flag.wrapping_sub(old));
+  }
   let core = support::core_from_image(&image);
   // keep only the memory (the Core's cache is irrelevant here); it stays boxed inside the core
   let mut core = core;
@@ -505,8 +511,17 @@ pub fn run(ctx: &mut Ctx) {
   let seed = ctx.seed;
   // (the last three were added after a seeded change that only misbehaved on a 2 KiB chip:
   // small and absent cartridge RAM, and a second size of each controller)
-  let configs: [(&'static str, u8, u8, u8); 6] =
-    [("mbc1", 0x03, 0x06, 0x03), ("mbc3", 0x13, 0x06, 0x03), ("rom-only", 0x00, 0x00, 0x02), ("mbc1-2k", 0x03, 0x02, 0x01), ("mbc3-8k", 0x13, 0x03, 0x02), ("mbc1-noram", 0x01, 0x04, 0x00)];
+  // ("-cgb": header byte 0x143 = 0x80, the only other header field an image can differ in
+  // that an emulator might act on; added after a seeded change that did)
+  let configs: [(&'static str, u8, u8, u8); 7] = [
+    ("mbc1", 0x03, 0x06, 0x03),
+    ("mbc3", 0x13, 0x06, 0x03),
+    ("rom-only", 0x00, 0x00, 0x02),
+    ("mbc1-2k", 0x03, 0x02, 0x01),
+    ("mbc3-8k", 0x13, 0x03, 0x02),
+    ("mbc1-noram", 0x01, 0x04, 0x00),
+    ("mbc1-cgb", 0x03, 0x02, 0x03),
+  ];
   let mut unit = 0u64;
   let mut totals = (0u64, 0u64, 0u64);
   let mut by_region = [0u64; 11];
@@ -523,7 +538,7 @@ pub fn run(ctx: &mut Ctx) {
       }
       ctx.intent(&[u, ci as u64, chunk as u64]);
       let mut rng = Rng::from(&[seed, 10, ci as u64, chunk as u64]);
-      let (mem, r) = build(ct, rc, rac, &mut rng);
+      let (mem, r) = build(ct, rc, rac, if name.ends_with("-cgb") { 0x80 } else { 0x00 }, &mut rng);
       let mut m = Mon { ctx, mem, r, cfg_name: name, evaluations: 0, bytes_compared: 0, fetch_compared: 0, writes_by_region: [0; 11], rom_bank_now: 1, ram_bank_now: 0, elapses: 0, word_stores: 0, store_already_done: false, defer_read_back: false };
       // initial read-back (learns the constants of unmapped cells)
       m.sweep("power-on", 1);
